@@ -67,3 +67,30 @@ Definition fdir_parse_fss (f : fdir) (raw : bytes) (idx : Z) : res (Z * Z) :=
   else
     if idx + 4 >? len raw then Err ETooShort else
     do v <- struct_unpack 4 (slice raw idx (idx + 4)); Ok (idx + 4, v).
+
+(* ---- AbstractFileDirectiveBase: the generic header accessors every directive PDU inherits ----
+   file_flag / crc_flag / pdu_data_field_len setters write straight into the header (its
+   PduConfig); no directive parameter length is recalculated by them (KeepAlivePdu and NakPdu
+   override file_flag).  The same objects are reachable as pdu.pdu_header.<setter> and
+   pdu.pdu_file_directive.pdu_conf.<attribute>. *)
+Definition fdir_with_hdr (f : fdir) (h : PduHeader) : fdir := {| fd_hdr := h; fd_type := fd_type f |}.
+Definition fdir_with_conf (f : fdir) (c : PduConfig) : fdir :=
+  fdir_with_hdr f (hdr_with_conf (fd_hdr f) c).
+Definition fdir_conf (f : fdir) : PduConfig := h_conf (fd_hdr f).
+(* crc_flag setter *)
+Definition fdir_set_crc_flag (f : fdir) (v : Z) : fdir := fdir_with_conf f (conf_set_crc (fdir_conf f) v).
+(* file_flag setter (generic) *)
+Definition fdir_set_file_flag (f : fdir) (v : Z) : fdir := fdir_with_conf f (conf_set_large (fdir_conf f) v).
+(* pdu_data_field_len setter (ValueError above 65535, nothing assigned then) *)
+Definition fdir_set_dlen (f : fdir) (v : Z) : res fdir :=
+  do h <- hdr_set_dlen (fd_hdr f) v; Ok (fdir_with_hdr f h).
+(* pdu_header.transmission_mode / direction / seg_ctrl / transaction_seq_num setters,
+   pdu_header.set_entity_ids, plain attribute segment_metadata_flag, pdu_type setter *)
+Definition fdir_set_mode (f : fdir) (v : Z) : fdir := fdir_with_conf f (conf_set_mode (fdir_conf f) v).
+Definition fdir_set_dir (f : fdir) (v : Z) : fdir := fdir_with_conf f (conf_set_dir (fdir_conf f) v).
+Definition fdir_set_segctrl (f : fdir) (v : Z) : fdir := fdir_with_conf f (conf_set_segctrl (fdir_conf f) v).
+Definition fdir_set_seq (f : fdir) (u : ubf) : fdir := fdir_with_hdr f (hdr_set_seq (fd_hdr f) u).
+Definition fdir_set_entity_ids (f : fdir) (s d : ubf) : res fdir :=
+  do h <- hdr_set_entity_ids (fd_hdr f) s d; Ok (fdir_with_hdr f h).
+Definition fdir_set_meta (f : fdir) (v : Z) : fdir := fdir_with_hdr f (hdr_set_meta (fd_hdr f) v).
+Definition fdir_set_type (f : fdir) (v : Z) : fdir := fdir_with_hdr f (hdr_set_type (fd_hdr f) v).
